@@ -340,6 +340,18 @@ Section TreeQuery.
     - now apply stop_index_node.
   Qed.
 
+  (* the [while True] descents terminate within [tree_len] iterations: any
+     larger fuel gives the same index *)
+  Lemma index_fuel : forall v fuel, v < tree_len T -> tree_len T <= fuel ->
+    start_index_f T fuel v = start_index T v /\ stop_index_f T fuel v = stop_index T v.
+  Proof.
+    intros v fuel Hv Hfuel. rewrite tree_len_eq in Hv, Hfuel.
+    destruct (node_decode v Hv) as (h & l & j & Hhl & Hj & ->).
+    assert (h < fuel) by (unfold tlen in Hfuel; pose proof (pow2_gt td); lia).
+    rewrite (start_index_node h l j Hhl Hj), (stop_index_node h l j Hhl Hj).
+    split; [now apply start_index_f_node|now apply stop_index_f_node].
+  Qed.
+
   (* (b) children split the range of their parent in two non-empty halves *)
   Lemma children_partition : forall v, right_child v < tree_len T ->
     start_index T (left_child v) = start_index T v /\
@@ -521,7 +533,7 @@ Section TreeQuery.
   Proof.
     intros fuel Hfuel. unfold maybe_intersects_ranges.
     destruct (loop_node td 0 0 ltac:(lia) ltac:(simpl; lia)) as (c & m & _ & L).
-    change 0 with (node 0 0) at 2 4.
+    change [0] with [node 0 0].
     assert (Hsz : 2 ^ S td - 1 + 0 <= tree_len T)
       by (rewrite tree_len_eq; unfold tlen; rewrite pow2_S; lia).
     destruct (L [] [] [] fuel 0 ltac:(lia)) as (f1 & _ & E1).
